@@ -139,6 +139,7 @@ theorem doAct_crash {P : Prog} {s : Scope} {a : Act} (h : doAct P s a = .error .
   | use p borrow => simp only [doAct] at h; exact visitPlace_crash h
   | give p => simp [doAct] at h
   | dropAfter => simp [doAct] at h
+  | moveOut => simp [doAct] at h
 
 theorem assignTargets_no_crash {P : Prog} {s : Scope} {tgts : List Place} :
     assignTargets P s tgts ≠ .error .crash := by
